@@ -492,6 +492,43 @@ def supersampled (s : Shape) (nx ny : Nat) (xs ys : List Rat) : Except SuperErr 
     if nx = 0 ∨ ny = 0 then .error .zeroDiv
     else .ok (meanFields (xs.length * ys.length) (gs.map fun g => evalSep s g.1 g.2))
 
+/-! ### the other statistics of `evaluate_supersampled` on a separated grid: 'sum', 'min', 'max' -/
+
+/-- the `statistic` argument (the dithered path implements these four) -/
+inductive Stat where
+  | mean | sum | min | max
+  deriving DecidableEq, Repr
+
+/-- `np.minimum(field, gen(dithered grid))` -/
+def minFields (a b : List Rat) : List Rat := List.zipWith (fun u v => if u ≤ v then u else v) a b
+
+/-- `np.maximum(field, gen(dithered grid))` -/
+def maxFields (a b : List Rat) : List Rat := List.zipWith (fun u v => if u ≤ v then v else u) a b
+
+/-- `field = 0; for dither: field += gen(dithered grid)` -/
+def sumFields (n : Nat) (fs : List (List Rat)) : List Rat := fs.foldl addFields (List.replicate n 0)
+
+/-- the loop over the dithered grids: 'mean'/'sum' start from 0 and add, 'min'/'max' start from the
+first field (`field = None`) and fold `np.minimum` / `np.maximum`; only 'mean' divides at the end -/
+def combineFields (st : Stat) (n : Nat) (fs : List (List Rat)) : List Rat :=
+  match st, fs with
+  | .mean, fs => meanFields n fs
+  | .sum, fs => sumFields n fs
+  | .min, [] => []
+  | .min, f :: r => r.foldl minFields f
+  | .max, [] => []
+  | .max, f :: r => r.foldl maxFields f
+
+/-- `evaluate_supersampled(gen, grid, (nx, ny), statistic=st)` on a separated grid: the errors are
+raised before the statistic is looked at, exactly as in `supersampled` -/
+def supersampledStat (st : Stat) (s : Shape) (nx ny : Nat) (xs ys : List Rat) :
+    Except SuperErr (List Rat) :=
+  match ditherGrids nx ny xs ys with
+  | none => .error .index
+  | some gs =>
+    if nx = 0 ∨ ny = 0 then .error .zeroDiv
+    else .ok (combineFields st (xs.length * ys.length) (gs.map fun g => evalSep s g.1 g.2))
+
 /-! ## distance-to-a-decision flags (used only to skip near-boundary points in the tie) -/
 
 def nearSq (tol r v : Rat) : Bool := decide (rabs (v - sq r) < tol * (2 * rabs r + tol))
